@@ -81,9 +81,12 @@ def run(ctx):
     reqs, jobs = [], []
     for _ in range(n_prog):
         src, planted = gen_source(rng)
-        out_kind = rng.choice(["-o-bin", "-o-raw", "implicit", "make_bin", "make_raw", "none", "make+o"])
+        out_kind = rng.choice(["-o-bin", "-o-raw", "implicit", "make_bin", "make_raw", "none", "make+o", "make_late", "make_late"])
         lst = rng.random() < 0.5
         src_full = src + ("make_bin\n" if out_kind in ("make_bin", "make+o") else "") + ("make_raw 'x.raw'\n" if out_kind == "make_raw" else "")
+        if out_kind == "make_late":
+            # two outputs whose names are known only at the end of the source, the directives standing between code
+            src_full = "nop\nmake_raw \"rel\" <VER9 + 60> \".raw\"\n" + src + "make_raw \"dbg\" <VER9 + 60> \".raw\"\nnop\nVER9 = 2\n"
         base_argv = ["p.mac"]
         if out_kind in ("-o-bin", "make+o"):
             base_argv += ["-o", "res.bin"]
@@ -146,6 +149,8 @@ def run(ctx):
                         want_files.add("p.bin")
                     if out_kind == "make_raw":
                         want_files.add("x.raw")
+                    if out_kind == "make_late":
+                        want_files |= {"rel2.raw", "dbg2.raw"}
                     if out_kind in ("-o-bin", "make+o"):
                         want_files.add("res.bin")
                     if out_kind == "-o-raw":
